@@ -94,3 +94,25 @@ package command
 //@   entry row limited:   [call ratelimit.Per(o.rateWindow) as (per) ; call ratelimit.New(o.rateCount, bind_opts) as (lim) ; call scan.NewRateLimitScanner(scanner, lim) as (ls) ;
 //@                         call scan.NewResultChan(ctx, _) as (rc) ; call newIPPortGenerator(o) as (gen) ; call scan.WithScanWorkerCount(o.workers) as (wo) ; call scan.NewScanEngine(gen, ls, rc, bind_os) as (eng)]
 //@                           when o.rateCount > 0 && len(opts) == 1 && opts[0] == per && len(os) == 1 && os[0] == wo && ret == eng -> exit
+
+// ---------------------------------------------------------------------------------------------
+// C02 / C18: exclusion file. Per line: the text up to the first '#', trimmed of spaces; an empty rest is skipped;
+// otherwise the network ParseIPNet yields for that text is inserted exactly once (no other filtering); the first
+// error aborts with that error; the container returned is the one that received the inserts.
+//@ func parseExcludeFile
+//@   props C02 C18
+//@   observe openFile, (*bufio.Scanner).Scan, (*bufio.Scanner).Text, strings.Index, strings.Trim, ParseIPNet, cidranger.NewBasicRangerEntry, Insert, Close, cidranger.NewPCTrieRanger
+//@   entry row noopen: [call openFile() as (in, e)] when e != nil && ret1 == e -> exit
+//@   entry row open:   [call openFile() as (in, e) ; call cidranger.NewPCTrieRanger() as (rg)] when e == nil -> loop 0
+//@   loop 0 invariant noerr: err == nil
+//@   loop 0 row eof:     [call Scan(_) as (more) ; call Close(_)] when !more && ret1 == nil && ret0 == ranger -> exit
+//@   loop 0 row blank:   [call Scan(_) as (more) ; call Text(_) as (ln) ; call strings.Index(ln, "#") as (c) ; call strings.Trim(bind_t, " ") as (tr)]
+//@                          when more && ((c == -1 && t == ln) || (c != -1 && t == substr(ln, 0, c))) && len(tr) == 0 -> continue
+//@   loop 0 row badnet:  [call Scan(_) as (more) ; call Text(_) as (ln) ; call strings.Index(ln, "#") as (c) ; call strings.Trim(bind_t, " ") as (tr) ; call ParseIPNet(tr) as (n, pe) ; call Close(_)]
+//@                          when more && ((c == -1 && t == ln) || (c != -1 && t == substr(ln, 0, c))) && len(tr) != 0 && pe != nil && ret1 == pe -> exit
+//@   loop 0 row insert:  [call Scan(_) as (more) ; call Text(_) as (ln) ; call strings.Index(ln, "#") as (c) ; call strings.Trim(bind_t, " ") as (tr) ; call ParseIPNet(tr) as (n, pe) ;
+//@                        call cidranger.NewBasicRangerEntry(bind_nv) as (en) ; call Insert(ranger, en) as (ie)]
+//@                          when more && ((c == -1 && t == ln) || (c != -1 && t == substr(ln, 0, c))) && len(tr) != 0 && pe == nil && nv.IP == n.IP && nv.Mask == n.Mask && ie == nil -> continue
+//@   loop 0 row inserr:  [call Scan(_) as (more) ; call Text(_) as (ln) ; call strings.Index(ln, "#") as (c) ; call strings.Trim(bind_t, " ") as (tr) ; call ParseIPNet(tr) as (n, pe) ;
+//@                        call cidranger.NewBasicRangerEntry(bind_nv) as (en) ; call Insert(ranger, en) as (ie) ; call Close(_)]
+//@                          when more && len(tr) != 0 && pe == nil && ie != nil && ret1 == ie -> exit
